@@ -215,8 +215,11 @@ def run_rc_program(pid, tier, cfg):
         tcfg["workers"] = int(os.environ["VF_WORKERS"])
     bins = build_targets([cfg["target"]])
     binpath = bins[cfg["target"]]
-    if cfg.get("also"):
-        build_targets([cfg["also"]["target"]])  # regression replays may name it
+    alsos = cfg.get("also") or []
+    if isinstance(alsos, dict):
+        alsos = [alsos]
+    for a in alsos:
+        build_targets([a["target"]])  # regression replays may name it
     known = [k for k in load_known() if k.get("property") == pid and k.get("status") == "known"]
     violations = []
     nreg, bad = run_regressions(cfg, binpath, pid)
@@ -256,17 +259,27 @@ def run_rc_program(pid, tier, cfg):
                    "-rss_limit_mb=4096", "-close_fd_mask=3", "-print_final_stats=1", "-seed=%d" % (seed_for(base_seed(), pid, 100 + j) % 2147483647),
                    "-artifact_prefix=%s/art-" % d, os.path.join(d, "corpus")]
             fprocs.append((j, d, subprocess.Popen(cmd, stdout=lf, stderr=subprocess.STDOUT, env=env, cwd=d), lf, fbin, ftc["seconds"]))
-    # optional additional target serving the same property (e.g. C03 through the tetrahedral collapse harness)
-    also = cfg.get("also")
-    also_bin = build_targets([also["target"]])[also["target"]] if also else None
+    # optional additional targets serving the same property (e.g. C03 through the tetrahedral collapse harness):
+    # the last workers are handed to them
     main_bin = binpath
+    assign = {}
+    also_of_bin = {}
+    nxt = nworkers
+    for a in alsos:
+        abin = build_targets([a["target"]])[a["target"]]
+        also_of_bin[abin] = a
+        for _ in range(a["workers"]):
+            nxt -= 1
+            if nxt > 0:
+                assign[nxt] = (a, abin)
     for i in range(nworkers):
-        binpath = also_bin if (also and i >= nworkers - also["workers"]) else main_bin
+        also, also_bin = assign.get(i, (None, None))
+        binpath = also_bin if also else main_bin
         d = os.path.join(wdir, "w%d" % i)
         os.makedirs(d)
         env = sanitizer_env()
         ms, ls = tcfg["max_success"], tcfg.get("len_scale", 0.6)
-        if binpath == also_bin and also:
+        if also:
             ms, ls = also[tier + "_max_success"], also.get("len_scale", ls)
         env["RC_PARAMS"] = "seed=%d max_success=%d max_size=%d" % (seed_for(base_seed(), pid, i), ms, tcfg["max_size"])
         env["VF_LEN_SCALE"] = str(ls)
@@ -277,13 +290,13 @@ def run_rc_program(pid, tier, cfg):
         lf = open(os.path.join(d, "log.txt"), "w")
         p = subprocess.Popen([binpath, "--run", pid, "--out", os.path.join(d, "stats.json"), "--work", d],
                              stdout=lf, stderr=subprocess.STDOUT, env=env)
-        procs.append((i, d, p, lf, binpath))
+        procs.append((i, d, p, lf, binpath, also))
     binpath = main_bin
     deadline = time.time() + tcfg.get("timeout", 900)
     timed_out = 0
     merged = {"evaluations": 0, "counters": {}, "hashes": set(), "samples": []}
     candidates = []
-    for i, d, p, lf, wbin in procs:
+    for i, d, p, lf, wbin, walso in procs:
         try:
             rc = p.wait(timeout=max(1, deadline - time.time()))
         except subprocess.TimeoutExpired:
@@ -351,7 +364,7 @@ def run_rc_program(pid, tier, cfg):
     for path, why, d, wbin in candidates:
         if why != "oracle":
             path = ddmin_program(cfg, wbin, pid, path)
-        stored, out = confirm_and_store(cfg, wbin, pid, path, why, also if wbin != main_bin else None)
+        stored, out = confirm_and_store(cfg, wbin, pid, path, why, also_of_bin.get(wbin))
         if stored is None:
             nonrepro += 1
             continue
